@@ -48,7 +48,7 @@ func (f *Min) Call(s *slip.Scope, args slip.List, depth int) slip.Object {
 	}
 	pos++
 	for ; pos < len(args); pos++ {
-		arg, mx := slip.NormalizeNumber(args[pos], min)
+		arg, mx := normalizeForCompare(args[pos], min)
 		switch ta := arg.(type) {
 		case slip.Fixnum:
 			if mx.(slip.Fixnum) > ta {
